@@ -60,7 +60,7 @@ def run(ctx):
     tier = "thorough" if ctx.thorough else "quick"
     ctx.assumptions += [
         "bounded enumeration with the TLA+ module as oracle, not a proof over all values: payload alphabet "
-        "{+ - : $ * CR LF SP 0 1 a}, payload length <= 3 (quick) / 5 (thorough), arrays of <= 3 / 4 leaves, nesting depth <= 4; "
+        "{+ - : $ * CR LF SP 0 1 a}, payload length <= 3 (quick) / 4 (thorough), arrays of <= 3 / 4 leaves, nesting depth <= 4; "
         "long payloads and the 64 bit range enter through boundary classes (around 32 / 512 / 8192 bytes, buffer size, int64 bounds)",
         "canonical input only: simple strings / errors without CR LF, lengths without sign or leading zeros; inline command = "
         "space separated words on one CR LF terminated line whose first byte is not a type byte (malformed input is C11)",
